@@ -18,10 +18,12 @@ import torch
 torch.set_num_threads(1)
 
 from vlib import cb, cl, clz, cn, co, cq, cz, coq_eval_bools, coq_eval_print, exc_kind, load_corpus, shrink
+from props import c01 as base
 from props.c01 import SCALE, _cut, _dims, _mat, _mutate, _rand_seq, _tensor
 
 IMPORTS = "From PV Require Import C01.Obs C01.Spec C01.Model C03.Spec C03.Model.\n"
 TOL = Fraction(1, 10**9)
+TOL_F32 = Fraction(1, 1000)  # float32 logits (|logit| <= 3, |loss| <= ~300 after 'sum'): rounding stays below 1e-4
 THEOREMS = ["c03_best_completion_is_row_min", "c03_oc_member_iff", "c03_oc_row_correct", "c03_oc_sorted_nodup_then_padding",
             "c03_oc_past_end_is_padding", "c03_hard_ocd_loss_formula", "c03_hard_ocd_loss_reductions"]
 REDS = {"none": "RNone", "sum": "RSum", "mean": "RMean"}
@@ -35,42 +37,111 @@ REDS = {"none": "RNone", "sum": "RSum", "mean": "RMean"}
 # implementation
 # ------------------------------------------------------------------------------------------
 def _logits_tensor(case):
+    """(H, N, V) or (N, H, V) logits k/4; 'f32': float32 instead of float64; 'llayout': another memory layout of the
+    same logical tensor ('t' = storage of the other batch layout, 'offset' = interior slice of a larger buffer,
+    'vlast' = class dimension not innermost in storage)"""
     N, R, H = _dims(case)
-    t = torch.tensor(case["logits"], dtype=torch.float64).reshape(H, N, case["V"]) / 4.0
-    return t.transpose(0, 1).contiguous() if case["batch_first"] else t
+    dt = torch.float32 if case.get("f32") else torch.float64
+    t = torch.tensor(case["logits"], dtype=dt).reshape(H, N, case["V"]) / 4.0
+    lay = case.get("llayout")
+    if lay == "t":
+        return t.contiguous().transpose(0, 1) if case["batch_first"] else t.transpose(0, 1).contiguous().transpose(0, 1)
+    t = t.transpose(0, 1).contiguous() if case["batch_first"] else t
+    if lay == "offset":
+        buf = torch.full((t.shape[0] + 2, t.shape[1] + 1, t.shape[2] + 3), 7.0, dtype=dt)
+        buf[1:-1, 1:, 2:-1] = t
+        return buf[1:-1, 1:, 2:-1]
+    if lay == "vlast":
+        return t.permute(2, 0, 1).contiguous().permute(1, 2, 0)
+    return t
 
 
-def _call(case, ref, hyp):
+# the documented defaults of the public entry points (signature / docstring of the pinned version); an option that a
+# 'sparse' call leaves out must behave as if this value had been passed.  ignore_index defaults to -2 in the function
+# and to -100 in the module.
+DEFAULTS = {
+    "oc": dict(eos=None, include_eos=True, batch_first=False, ins_cost=1.0, del_cost=1.0, sub_cost=1.0, padding=-100,
+               exclude_last=False, warn=True),
+    "loss": dict(eos=None, include_eos=True, batch_first=False, ins_cost=1.0, del_cost=1.0, sub_cost=1.0, weight=None,
+                 reduction="mean", ignore_index=-2, warn=True),
+    "loss/module": dict(eos=None, include_eos=True, batch_first=False, ins_cost=1.0, del_cost=1.0, sub_cost=1.0,
+                        weight=None, reduction="mean", ignore_index=-100, warn=True),
+}
+
+
+def _scale(case):
+    return case.get("scale", SCALE)
+
+
+def _fn(case):
+    """the callable of the case's entry point: (ref, hyp) -> targets, or (logits, ref, hyp) -> loss"""
     import pydrobert.torch.functional as F
     import pydrobert.torch.modules as M
 
     # "cscale": a non-dyadic common factor, only ever attached to three EQUAL costs.  The implementation then takes
     # its uniform-cost path (unit costs, multiplied back); by c01_uniform_cost_shortcut the optimal-completion sets do
     # not depend on the common positive factor, so the model keeps the integer costs.
-    ci, cd, cs = (k / SCALE * case.get("cscale", 1.0) for k in case["costs"])
+    ci, cd, cs = (k / _scale(case) * case.get("cscale", 1.0) for k in case["costs"])
     eos, ie, bf, pad, warn = case["eos"], case["include_eos"], case["batch_first"], case["padding"], case["warn"]
+    entry = case.get("entry")
+    if case["api"] == "oc":
+        o = dict(eos=eos, include_eos=ie, batch_first=bf, ins_cost=ci, del_cost=cd, sub_cost=cs, padding=pad,
+                 exclude_last=case["exclude_last"], warn=warn)
+        if entry == "sparse":
+            kw = base.sparse_kwargs(o, DEFAULTS["oc"], case.get("keep", ()))
+            return M.OptimalCompletion(**kw) if case["module"] else (lambda ref, hyp: F.optimal_completion(ref, hyp, **kw))
+        if entry == "script":
+            return torch.jit.script(M.OptimalCompletion(*o.values()))
+        if entry == "trace":
+            ex = torch.full((1, 1), 0 if eos is None else eos, dtype=torch.long)
+            return torch.jit.trace(M.OptimalCompletion(*o.values()), (ex, ex))
+        if entry == "script_fn":
+            f = torch.jit.script(F.optimal_completion)
+            return lambda ref, hyp: f(ref, hyp, *o.values())
+        if case["module"]:
+            return M.OptimalCompletion(*o.values())
+        if case.get("kw"):
+            rev = dict(reversed(list(o.items())))
+            return lambda ref, hyp: F.optimal_completion(hyp=hyp, ref=ref, **rev)
+        return lambda ref, hyp: F.optimal_completion(ref, hyp, *o.values())
+    dt = torch.float32 if case.get("f32") else torch.float64
+    w = None if case["weight"] is None else torch.tensor(case["weight"], dtype=dt) / 4.0
+    o = dict(eos=eos, include_eos=ie, batch_first=bf, ins_cost=ci, del_cost=cd, sub_cost=cs, weight=w,
+             reduction=case["reduction"], ignore_index=pad, warn=warn)
+    ctor = [v for k, v in o.items() if k != "warn"]
+    if entry == "sparse":
+        d = DEFAULTS["loss/module" if case["module"] else "loss"]
+        kw = base.sparse_kwargs({k: v for k, v in o.items() if k != "weight"}, d, case.get("keep", ()))
+        if w is not None or "weight" in case.get("keep", ()):
+            kw["weight"] = w
+        if case["module"]:
+            m = M.HardOptimalCompletionDistillationLoss(**{k: v for k, v in kw.items() if k != "warn"})
+            fw = {"warn": kw["warn"]} if "warn" in kw else {}
+            return lambda logits, ref, hyp: m(logits, ref, hyp, **fw)
+        return lambda logits, ref, hyp: F.hard_optimal_completion_distillation_loss(logits, ref, hyp, **kw)
+    if entry == "script":
+        m = torch.jit.script(M.HardOptimalCompletionDistillationLoss(*ctor))
+        return lambda logits, ref, hyp: m(logits, ref, hyp, warn)
+    if entry == "trace":
+        ex = torch.full((1, 1), 0 if eos is None else eos, dtype=torch.long)
+        return torch.jit.trace(M.HardOptimalCompletionDistillationLoss(*ctor), (torch.zeros(1, 1, case["V"], dtype=dt), ex, ex))
+    if entry == "script_fn":
+        f = torch.jit.script(F.hard_optimal_completion_distillation_loss)
+        return lambda logits, ref, hyp: f(logits, ref, hyp, *o.values())
+    if case["module"]:
+        m = M.HardOptimalCompletionDistillationLoss(*ctor)
+        return lambda logits, ref, hyp: m(logits, ref, hyp, warn=warn)
+    if case.get("kw"):
+        rev = dict(reversed(list(o.items())))
+        return lambda logits, ref, hyp: F.hard_optimal_completion_distillation_loss(hyp=hyp, ref=ref, logits=logits, **rev)
+    return lambda logits, ref, hyp: F.hard_optimal_completion_distillation_loss(logits, ref, hyp, *o.values())
+
+
+def _call(case, ref, hyp):
     with warnings.catch_warnings():
         warnings.simplefilter("ignore")
-        if case["api"] == "oc":
-            xl = case["exclude_last"]
-            if case["module"]:
-                return M.OptimalCompletion(eos, ie, bf, ci, cd, cs, pad, xl, warn)(ref, hyp)
-            if case.get("kw"):
-                return F.optimal_completion(hyp=hyp, ref=ref, warn=warn, exclude_last=xl, padding=pad, sub_cost=cs,
-                                            del_cost=cd, ins_cost=ci, batch_first=bf, include_eos=ie, eos=eos)
-            return F.optimal_completion(ref, hyp, eos, ie, bf, ci, cd, cs, pad, xl, warn)
-        logits = _logits_tensor(case)
-        w = None if case["weight"] is None else torch.tensor(case["weight"], dtype=torch.float64) / 4.0
-        if case["module"]:
-            return M.HardOptimalCompletionDistillationLoss(eos, ie, bf, ci, cd, cs, w, case["reduction"], pad)(
-                logits, ref, hyp, warn=warn)
-        if case.get("kw"):
-            return F.hard_optimal_completion_distillation_loss(hyp=hyp, ref=ref, logits=logits, warn=warn,
-                                                               ignore_index=pad, reduction=case["reduction"], weight=w,
-                                                               sub_cost=cs, del_cost=cd, ins_cost=ci, batch_first=bf,
-                                                               include_eos=ie, eos=eos)
-        return F.hard_optimal_completion_distillation_loss(logits, ref, hyp, eos, ie, bf, ci, cd, cs, w,
-                                                           case["reduction"], pad, warn)
+        fn = _fn(case)
+        return fn(ref, hyp) if case["api"] == "oc" else fn(_logits_tensor(case), ref, hyp)
 
 
 def _frac(x):
@@ -81,8 +152,21 @@ def _frac(x):
 def run_impl(case):
     N, R, H = _dims(case)
     try:
-        out = _call(case, _tensor(case["ref"], R, case["batch_first"]), _tensor(case["hyp"], H, case["batch_first"]))
+        bf = case["batch_first"]
+        lay = case.get("layout") or ("contig", "contig")
+        junk = 0 if case["eos"] is None else case["eos"]
+        ref = base._tensor_l(case["ref"], R, bf, lay[0], junk)
+        hyp = ref if case.get("alias") else base._tensor_l(case["hyp"], H, bf, lay[1], junk)
+        with warnings.catch_warnings():
+            warnings.simplefilter("ignore")
+            fn = _fn(case)
+        sd = 1 if bf else 0
+        if case["api"] == "oc":
+            out, flags = base.call_with_history(case, fn, [ref, hyp], [sd, sd])
+        else:
+            out, flags = base.call_with_history(case, fn, [_logits_tensor(case), ref, hyp], [sd, sd, sd])
         res = {"shape": list(out.shape), "dtype": str(out.dtype)}
+        res.update(flags)
         if case["api"] == "oc":
             res["val"] = out.tolist()
         elif not bool(torch.isfinite(out).all()):
@@ -131,17 +215,25 @@ def _logp(case):
     return cl([cl([cl([_q(_frac(x)) for x in v]) for v in row]) for row in lp.tolist()])
 
 
+def _tol(case):
+    return TOL_F32 if case.get("f32") else TOL
+
+
 def model_term(case, out):
-    if "exc" in out:
+    if "exc" in out or "unstable" in out:
         return "false"
     N, R, H = _dims(case)
+    if case.get("long"):
+        if out["dtype"] != "torch.int64" or not _oc_shape_ok(case, out):
+            return "false"
+        return "(" + " && ".join(pair_term(case, out, n) for n in range(N)) + ")"
     ref, hyp = _mat(case["ref"], R, case["batch_first"]), _mat(case["hyp"], H, case["batch_first"])
     if case["api"] == "oc":
         if out["dtype"] != "torch.int64" or not _oc_shape_ok(case, out):
             return "false"
         obs = cl([cl([clz(row) for row in plane]) for plane in out["val"]])
         return f"check_oc {_cfg(case)} {cn(N)} {ref} {hyp} {obs}"
-    if out["val"] == "nonfinite" or out["dtype"] != "torch.float64":
+    if out["val"] == "nonfinite" or out["dtype"] != ("torch.float32" if case.get("f32") else "torch.float64"):
         return "false"
     w = co(None if case["weight"] is None else cl([cq(Fraction(k, 4)) for k in case["weight"]]))
     red = case["reduction"]
@@ -153,7 +245,25 @@ def model_term(case, out):
         if out["shape"] != []:
             return "false"
         grid, scalar = "[]", _q(out["val"])
-    return (f"check_loss {_cfg(case)} {w} {REDS[red]} {cn(N)} {ref} {hyp} {_logp(case)} {cq(TOL)} {grid} {scalar}")
+    return (f"check_loss {_cfg(case)} {w} {REDS[red]} {cn(N)} {ref} {hyp} {_logp(case)} {cq(_tol(case))} {grid} {scalar}")
+
+
+def pair_term(case, out, n):
+    """Pair n of a batch whose padded reference is longer than 256, judged by the same check_oc term on the
+    canonicalised input: the pair alone (N = 1, batch-first), its reference column cut right after its first eos, its
+    rows cut to the pair's own widest row (c03_oc_row_pointwise: a row depends on the two denoted sequences only, the
+    common width is the only batch-wide quantity).  The padding value of these cases is never a token, so the cut is
+    unambiguous; what is cut off must be padding."""
+    r, h = list(case["ref"][n]), list(case["hyp"][n])
+    if case["eos"] is not None and case["eos"] in r:
+        r = r[: r.index(case["eos"]) + 1]
+    pad = case["padding"]
+    rows = [list(row) for row in _pair_rows(case, out, n)]
+    width = max([len(_strip_pad(row, pad)) for row in rows] + [0])
+    if any(t != pad for row in rows for t in row[width:]):
+        return "false"
+    obs = cl([cl([clz(row[:width]) for row in rows])])
+    return f"check_oc {_cfg(dict(case, batch_first=True))} 1 {cl([clz(r)])} {cl([clz(h)])} {obs}"
 
 
 def _pair_rows(case, out, n):
@@ -164,7 +274,7 @@ def _pair_rows(case, out, n):
 
 def spec_term(case, out):
     """Judge an optimal_completion output by C03.Spec alone (row minima of lev on the sequences cut at eos)."""
-    if "exc" in out or case["api"] != "oc" or not _oc_shape_ok(case, out):
+    if "exc" in out or case["api"] != "oc" or not _oc_shape_ok(case, out) or "unstable" in out:
         return "false"
     N, R, H = _dims(case)
     ki, kd, ks = case["costs"]
@@ -197,6 +307,13 @@ def in_space(case):
         return False
     if not all(k > 0 for k in case["costs"]):
         return False
+    if case.get("alias") and case["ref"] != case["hyp"]:
+        return False  # the same tensor object is handed over for both arguments
+    for which, l in zip(("ref", "hyp"), case.get("layout") or ()):
+        if l == "expand" and (any(x != case[which][0] for x in case[which]) or case.get("history")):
+            return False  # a stride-0 broadcast denotes equal sequences and cannot be overwritten in place
+    if case.get("long") and case["padding"] in {t for s_ in case["ref"] for t in s_}:
+        return False  # pair_term cuts rows at the padding value
     if case["api"] == "loss":
         V, ign = case["V"], case["padding"]
         if 0 <= ign < V:
@@ -267,7 +384,7 @@ def metamorphic(case, out, rng):
         else:
             a = o1["val"][0] if case["batch_first"] else [row[0] for row in o1["val"]]
             b = out["val"][n] if case["batch_first"] else [row[n] for row in out["val"]]
-            if any(abs(Fraction(x) - Fraction(y)) > TOL for x, y in zip(a, b)):
+            if any(abs(Fraction(x) - Fraction(y)) > _tol(case) for x, y in zip(a, b)):
                 fails.append((f"loss of pair {n} alone differs from pair {n} inside the batch", c1, o1))
     # (2) ... nor on tokens after its end-of-sequence
     if case["eos"] is not None:
@@ -294,7 +411,7 @@ def metamorphic(case, out, rng):
     elif case["reduction"] == "none":
         if [list(x) for x in zip(*oT["val"])] != out["val"] and H > 0:
             fails.append(("the two batch layouts disagree", cT, oT))
-    elif abs(Fraction(oT["val"]) - Fraction(out["val"])) > TOL:
+    elif abs(Fraction(oT["val"]) - Fraction(out["val"])) > _tol(case):
         fails.append(("the two batch layouts disagree", cT, oT))
     # (4) functional and module forms agree
     cM = dict(case, module=not case["module"])
@@ -466,6 +583,182 @@ def gen_zero_width_hyp(chk, n):
     return cases
 
 
+# ---- robustness streams (notes/AUDIT_GUIDE.md); the machinery is props.c01's -------------------------
+
+
+def _vocab(case):
+    toks = [t for s_ in case["ref"] for t in s_] + ([case["eos"]] if case["eos"] is not None else [])
+    return max([t for t in toks if t >= 0] + [0]) + 1
+
+
+def gen_loss_empty_ref(chk, n):
+    """hard OCD loss on references that START with eos: with include_eos=False such a pair has no target at any step
+    (every denominator of the loss is 0 before clamping - 'zero where there are none'), with include_eos=True its only
+    target is eos at step 0.  Some batches consist of such pairs only (target width 0).  'mean' most of the time."""
+    rng = chk.rng
+    cases = []
+    for _ in range(n):
+        V = rng.randint(2, 4)
+        eos = rng.choice([V - 1, V - 1, V, -1])
+        alphabet = [a for a in range(V) if a != eos]
+        N, R, H = rng.randint(1, 3), rng.randint(1, 5), rng.randint(1, 5)
+        all_empty = rng.random() < 0.3
+        ref = []
+        for _n in range(N):
+            if all_empty or rng.random() < 0.6:
+                ref.append([eos] + [rng.choice(alphabet + [eos]) for _ in range(R - 1)])
+            else:
+                ref.append(_rand_seq(rng, R, alphabet, eos, 0.2))
+        hyp = [_rand_seq(rng, H, alphabet, eos, 0.3) for _ in range(N)]
+        ie = eos >= 0 and rng.random() < 0.3
+        case = dict(api="oc", module=rng.random() < 0.3, kw=rng.random() < 0.5, ref=ref, hyp=hyp, eos=eos, include_eos=ie,
+                    batch_first=rng.random() < 0.5, exclude_last=True,
+                    costs=[4, 4, 4] if rng.random() < 0.5 else [rng.randint(1, 12) for _ in range(3)], padding=-2,
+                    warn=rng.random() < 0.2, stream="loss-empty-ref")
+        case = _loss_extras(rng, case, max(V, eos + 1 if ie else 0))
+        case["reduction"] = "mean" if rng.random() < 0.6 else rng.choice(["sum", "none"])
+        cases.append(case)
+    return cases
+
+
+def gen_eos_mix(chk, n):
+    """batch interaction of the include_eos length fix-up (see props.c01.gen_eos_mix) for the targets and the loss"""
+    rng = chk.rng
+    cases = []
+    for c in base.gen_eos_mix(chk, n):
+        case = dict(api="oc", module=c["module"], kw=c["kw"], ref=c["ref"], hyp=c["hyp"], eos=c["eos"],
+                    include_eos=c["include_eos"], batch_first=c["batch_first"], exclude_last=rng.random() < 0.5,
+                    costs=c["costs"], padding=rng.choice(PADS), warn=c["warn"], stream="eos-mix")
+        if rng.random() < 0.3 and c["eos"] >= 0:
+            case = _loss_extras(rng, case, _vocab(case) + rng.randint(0, 1))
+        cases.append(case)
+    return cases
+
+
+def gen_sparse(chk, n):
+    """calls that leave out every option sitting on its documented default (optimal_completion: include_eos=True,
+    padding=-100, exclude_last=False; the loss: include_eos=True, reduction='mean', no weight, ignore_index -2 in the
+    function and -100 in the module); functional keywords and module constructor keywords"""
+    rng = chk.rng
+    cases = []
+    for i in range(n):
+        V = rng.randint(2, 3)
+        eos = rng.choice([None, V, V, 0])
+        alphabet = [a + (1 if eos == 0 else 0) for a in range(V)]
+        N, R, H = rng.randint(1, 3), rng.randint(1, 6), rng.randint(2, 5)
+        ref = [_rand_seq(rng, R, alphabet, eos, 0.15) for _ in range(N)]
+        hyp = [(_mutate(rng, r, alphabet, eos, H) if rng.random() < 0.4 else _rand_seq(rng, H, alphabet, eos, 0.15))
+               for r in ref]
+        d = DEFAULTS["oc"]
+        case = dict(api="oc", module=rng.random() < 0.5, kw=False, ref=ref, hyp=hyp, eos=eos, entry="sparse",
+                    include_eos=rng.random() < 0.65, batch_first=rng.random() < 0.35, exclude_last=rng.random() < 0.35,
+                    costs=[4, 4, 4] if rng.random() < 0.5 else [rng.randint(1, 12) for _ in range(3)],
+                    padding=-100 if rng.random() < 0.6 else rng.choice([-1, 7, -2]), warn=rng.random() < 0.7,
+                    keep=[k for k in d if rng.random() < 0.2], stream="sparse-defaults")
+        if i % 3 == 2:
+            case = _loss_extras(rng, case, _vocab(case) + rng.randint(0, 1))
+            case["reduction"] = "mean" if rng.random() < 0.6 else rng.choice(["sum", "none"])
+            case["padding"] = (-100 if case["module"] else -2) if rng.random() < 0.6 else rng.choice([-1, -100, -2, -5])
+            case["keep"] = [k for k in DEFAULTS["loss"] if rng.random() < 0.2]
+        cases.append(case)
+    return cases
+
+
+def gen_entry_layout(chk, n):
+    """memory layouts of ref / hyp / logits, float32 logits, scripted / traced modules, scripted functions, call history
+    (same callable and same tensor objects re-used after an in-place overwrite), one tensor object for ref and hyp,
+    unusual token ids (targets only: the loss needs class indices)"""
+    rng = chk.rng
+    cases = []
+    for c in gen_random(chk, n):
+        loss = c["api"] == "loss"
+        c = base._decorate(rng, c, p_exotic=0.0 if loss else 0.3, defaults=DEFAULTS)
+        if loss:
+            N, R, H = _dims(c)
+            if len(c["logits"]) != H:  # hyp was replaced by the reference (alias)
+                c["logits"] = [[[rng.randint(-12, 12) for _ in range(c["V"])] for _ in range(N)] for _ in range(H)]
+            c["llayout"] = rng.choice([None, "t", "offset", "vlast"])
+            if rng.random() < 0.25 and max(abs(x) for p_ in c["logits"] for r_ in p_ for x in r_) <= 12:
+                c["f32"] = True
+        c["stream"] = "entry-layout"
+        cases.append(c)
+    return cases
+
+
+def gen_numeric(chk, n):
+    """cost magnitudes for the row-minimum mask: the triple scaled by 2^10..2^20 or 2^-8..2^-14, or three costs up to 12
+    binary orders apart (every float32 step of the table stays exact, ties stay ties)"""
+    rng = chk.rng
+    cases = []
+    for c in gen_ties(chk, n):
+        if c["api"] != "oc":
+            continue
+        if rng.random() < 0.5:
+            c["costs"] = [rng.randint(1, 12) for _ in range(3)]
+        kind = rng.choice(["big", "small", "spread"])
+        uni = len(set(c["costs"])) == 1
+        if kind == "big":
+            e = rng.choice([10, 16, 20])
+            c["costs"] = [k * 2 ** e for k in c["costs"]]
+        elif kind == "small":
+            c["scale"] = SCALE * 2 ** rng.choice([8, 14])
+        else:
+            c["scale"] = SCALE * 2 ** 6
+            c["costs"] = [k * 2 ** (0 if uni else rng.choice([0, 6, 12])) for k in c["costs"]]
+        c["numeric"] = kind
+        c["stream"] = "numeric"
+        cases.append(c)
+    return cases
+
+
+def gen_long(chk, n_ref, n_hyp, big=()):
+    """size-dependent code paths: padded reference / hypothesis widths around and above 256.  long-ref: one pair whose
+    reference really is that long (hypothesis of 1-3 tokens) batched with short pairs (eos early, garbage up to the
+    padded width), judged pair by pair on the canonicalised input (pair_term); 'big': widths 513 / 1025 with short
+    references only.  long-hyp: the hypothesis side, judged by the ordinary whole-batch term."""
+    rng = chk.rng
+    cases = []
+    sizes = [255, 256, 257, 257, 258, 260, 300]
+    alphabet = [0, 1, 2]
+    for i in range(n_ref + len(big)):
+        R = big[i - n_ref] if i >= n_ref else sizes[i % len(sizes)] if i < len(sizes) else rng.choice(sizes)
+        eos = rng.choice([None, 9, 9, 9, -1]) if i < n_ref else 9
+        H = rng.randint(1, 2) if i < n_ref else rng.randint(2, 4)
+        N = 2 if eos is not None else 1
+        ref, hyp = [], []
+        for n in range(N):
+            if n == 0 and i < n_ref:
+                L = R if eos is None else R - rng.randint(0, 3)
+                r = [rng.choice(alphabet) for _ in range(L)] + [eos] * (R - L)
+            else:
+                L = rng.randint(0, 6)
+                r = [rng.choice(alphabet) for _ in range(L)] + [eos] + [rng.choice(alphabet + [eos]) for _ in range(R - L - 1)]
+            ref.append(r)
+            hyp.append(_rand_seq(rng, H, alphabet + [5], eos, 0.4))
+        costs = [4, 4, 4] if rng.random() < 0.3 else [rng.randint(1, 12) for _ in range(3)]
+        cases.append(dict(api="oc", module=rng.random() < 0.3, kw=rng.random() < 0.5, ref=ref, hyp=hyp, eos=eos,
+                          include_eos=rng.random() < 0.6, batch_first=rng.random() < 0.5, exclude_last=rng.random() < 0.5,
+                          costs=costs, padding=rng.choice([-100, -7]), warn=False, long=True, stream="long-ref"))
+    for i in range(n_hyp):
+        H = sizes[i % len(sizes)] if i < len(sizes) else rng.choice(sizes)
+        eos = rng.choice([None, 9, 9, -1])
+        R = rng.randint(1, 4)
+        hyp = []
+        for n in range(2):
+            if n == 0 or eos is None:
+                L = H if eos is None else H - rng.randint(0, 3)
+                hyp.append([rng.choice(alphabet + [5]) for _ in range(L)] + [eos] * (H - L))
+            else:
+                L = rng.randint(0, 6)
+                hyp.append([rng.choice(alphabet) for _ in range(L)] + [eos] + [rng.choice(alphabet + [eos]) for _ in range(H - L - 1)])
+        ref = [_rand_seq(rng, R, alphabet, eos, 0.3) for _ in range(2)]
+        costs = [4, 4, 4] if rng.random() < 0.3 else [rng.randint(1, 12) for _ in range(3)]
+        cases.append(dict(api="oc", module=rng.random() < 0.3, kw=rng.random() < 0.5, ref=ref, hyp=hyp, eos=eos,
+                          include_eos=rng.random() < 0.6, batch_first=rng.random() < 0.5, exclude_last=rng.random() < 0.5,
+                          costs=costs, padding=rng.choice([-100, -7]), warn=False, slow=True, stream="long-hyp"))
+    return cases
+
+
 def gen_cases(chk):
     thorough = chk.tier == "thorough"
     cases = gen_exhaustive(chk)
@@ -477,6 +770,13 @@ def gen_cases(chk):
     cases += gen_ties(chk, 4000 if thorough else 500)
     cases += gen_zero_width_hyp(chk, 200 if thorough else 30)
     cases += gen_uniform_nondyadic(chk, 1500 if thorough else 120)
+    # robustness streams: drawn after the older streams so that those stay what they were for a given seed
+    cases += gen_loss_empty_ref(chk, 1200 if thorough else 90)
+    cases += gen_eos_mix(chk, 1200 if thorough else 80)
+    cases += gen_sparse(chk, 1500 if thorough else 120)
+    cases += gen_entry_layout(chk, 2500 if thorough else 170)
+    cases += gen_numeric(chk, 800 if thorough else 70)
+    cases += gen_long(chk, 21 if thorough else 3, 14 if thorough else 2, big=(513, 1025) if thorough else (513,))
     return [c for c in cases if in_space(c)]
 
 
@@ -497,6 +797,9 @@ def _fails(chk, case):
 def _cands(case):
     N, R, H = _dims(case)
     loss = case["api"] == "loss"
+    for key in ("history", "entry", "layout", "llayout", "f32", "ids") + (() if loss else ("alias",)):
+        if case.get(key):
+            yield {k: v for k, v in case.items() if k != key}
     for n in range(N):
         if N > 1:
             c = dict(case, ref=case["ref"][:n] + case["ref"][n + 1:], hyp=case["hyp"][:n] + case["hyp"][n + 1:])
@@ -579,6 +882,45 @@ def judge(chk, case, out):
     return rec, spec_ok
 
 
+def judge_wide(chk, case, out):
+    """A batch wider than 255.  C03.Spec (recursion over edit scripts) is not evaluable on the long pair: the short pairs
+    are judged by the spec on their canonicalised columns, for the long pair the model's verdict stands (model = spec by
+    c03_oc_row_correct / c03_oc_sorted_nodup_then_padding)."""
+    N = len(case["ref"])
+    rec = {"case": case, "impl": {k: v for k, v in out.items() if k != "val"} if max(_dims(case)[1:]) > 40 else out,
+           "theorems_at_stake": THEOREMS, "spec_accepts_impl": False,
+           "correspondence": "corr:C03:batch with a padded width above 255, pair by pair"}
+    if "exc" in out or "unstable" in out or not _oc_shape_ok(case, out):
+        rec["what"] = ("implementation raised / returned a wrong shape / is unstable on a batch with a padded width of %d"
+                       % max(_dims(case)[1:]))
+        rec["impl"] = {k: v for k, v in out.items() if k != "val"}
+        return rec
+    if not case.get("long"):
+        rec["what"] = "targets differ from the model on a batch with a hypothesis wider than 255"
+        return rec
+    res = coq_eval_bools(chk.workdir, IMPORTS, [pair_term(case, out, n) for n in range(N)], shard=1, tag="longj")
+    rec["failing_pairs"] = [n for n, ok in enumerate(res) if not ok]
+    ki, kd, ks = case["costs"]
+    eos = co(None if case["eos"] is None else cz(case["eos"]))
+    judged = []
+    for n in rec["failing_pairs"]:
+        r = list(case["ref"][n])
+        if case["eos"] is not None and case["eos"] in r and r.index(case["eos"]) < 8:
+            r = r[: r.index(case["eos"]) + 1]
+            rows = cl([clz(row) for row in _pair_rows(case, out, n)])
+            t = (f"spec_pair_okb {eos} {cb(case['include_eos'])} {cb(case['exclude_last'])} {cz(ki)} {cz(kd)} {cz(ks)} "
+                 f"{cz(case['padding'])} {clz(r)} {clz(case['hyp'][n])} {rows}")
+            ok = coq_eval_bools(chk.workdir, IMPORTS, [t], tag="longspec")[0]
+            judged.append({"pair": n, "ref_cut": r, "hyp": case["hyp"][n], "rows_in_batch": _pair_rows(case, out, n),
+                           "spec_accepts": ok})
+    rec["short_pairs_judged_by_spec"] = judged
+    rec["what"] = ("pair(s) %s of a batch whose padded reference width is %d do not list exactly the distance-preserving "
+                   "tokens (model on the pair alone, reference cut after its eos%s)"
+                   % (rec["failing_pairs"], len(case["ref"][0]),
+                      "; C03.Spec rejects pair(s) %s" % [j["pair"] for j in judged if not j["spec_accepts"]] if judged else ""))
+    return rec
+
+
 def run(chk, cases=None):
     chk.rule = ("case = one call of optimal_completion / hard_optimal_completion_distillation_loss (functional or module "
                 "form) on a batch; ref/hyp are N sequences of the tensor widths R/H (padding and post-eos garbage "
@@ -613,8 +955,15 @@ def run(chk, cases=None):
         chk.count("costs=" + ("uniform" if len(set(c["costs"])) == 1 else "nonuniform"))
         chk.count("eos=" + (eos_kind or ("none" if c["eos"] is None else "given")))
         chk.count("N=%d" % N)
-        chk.count("R=%d" % R)
-        chk.count("H=%d" % H)
+        chk.count("R=%s" % (R if R <= 8 else ">8" if R < 255 else R))
+        chk.count("H=%s" % (H if H <= 8 else ">8" if H < 255 else H))
+        chk.count("entry=" + (c.get("entry") or "legacy"))
+        chk.count("layout=" + "/".join(c.get("layout") or ("contig", "contig")))
+        for key in ("history", "alias", "ids", "numeric", "llayout", "f32"):
+            if c.get(key):
+                chk.count(key + "=" + str(c[key]))
+        if c.get("scale"):
+            chk.count("scale=%d" % c["scale"])
         chk.count("outcome=" + ("exc:" + out["exc"] if "exc" in out else "ok"))
         chk.count("pairs", N)
         cuts = [(_cut(r, c["eos"], c["include_eos"]), _cut(h, c["eos"], c["include_eos"])) for r, h in zip(c["ref"], c["hyp"])]
@@ -629,21 +978,38 @@ def run(chk, cases=None):
                     chk.count("targets_per_row=%d" % sum(1 for t in row if t != c["padding"]))
         if c["api"] == "loss":
             chk.count("weight=" + ("given" if c["weight"] is not None else "none"))
-    res = coq_eval_bools(chk.workdir, IMPORTS, terms)
-    bad = [i for i, ok in enumerate(res) if not ok]
-    chk.extra["model_disagreements"] = len(bad)
+            if c["eos"] is not None and not c["include_eos"]:
+                ne = sum(1 for r in c["ref"] if r and r[0] == c["eos"])
+                if ne:
+                    chk.count("loss/%s: batches with a reference starting with eos (no target at any step)" % c["reduction"])
+                if ne == N:
+                    chk.count("loss: no pair of the batch has any target (width 0)")
+    # the Coq evaluations run beside the metamorphic phase; batches wider than 255 get their own shards and are not
+    # handed to the spec (its recursion is exponential)
+    from concurrent.futures import ThreadPoolExecutor
 
+    def _wide(c):
+        return bool(c.get("long") or c.get("slow") or max(_dims(c)[1:]) > 40)
+
+    slow = [i for i, c in enumerate(cases) if _wide(c)]
+    slow_set = set(slow)
+    fast = [i for i in range(len(cases)) if i not in slow_set]
     # every optimal_completion output of the run is also judged by the spec alone (model-free)
-    oc_idx = [i for i, c in enumerate(cases) if c["api"] == "oc" and
-              (replaying or (chk.tier == "thorough" and streams[i] != "exhaustive") or i % 2 == 0)]
-    sres = coq_eval_bools(chk.workdir, IMPORTS, [spec_term(cases[i], outs[i]) for i in oc_idx], tag="specall")
-    spec_bad = [i for i, ok in zip(oc_idx, sres) if not ok]
-    chk.extra["spec_judged_outputs"] = len(oc_idx)
-    chk.extra["spec_rejections"] = len(spec_bad)
+    NEW = ("loss-empty-ref", "eos-mix", "sparse-defaults", "entry-layout", "numeric", "long-ref", "long-hyp")
+    oc_idx = [i for i, c in enumerate(cases) if c["api"] == "oc" and i not in slow_set and
+              (replaying or (chk.tier == "thorough" and streams[i] != "exhaustive") or
+               i % (4 if streams[i] in NEW else 2) == 0)]
+    pool = ThreadPoolExecutor(max_workers=3)
+    fut_fast = pool.submit(coq_eval_bools, chk.workdir, IMPORTS, [terms[i] for i in fast])
+    fut_slow = pool.submit(coq_eval_bools, chk.workdir, IMPORTS, [terms[i] for i in slow], 1, None, 1800, "long")
+    fut_spec = pool.submit(coq_eval_bools, chk.workdir, IMPORTS, [spec_term(cases[i], outs[i]) for i in oc_idx], 300, None,
+                           900, "specall")
 
     mrng = random.Random(chk.seed + 1)
     meta_n, meta_fail = 0, []
     for i, c in enumerate(cases):
+        if not replaying and (_wide(c) or c.get("entry") in base.JIT or streams[i] in NEW and i % 8 != 0):
+            continue
         if replaying or (streams[i] != "exhaustive" and i % 2 == 0) or i % 12 == 0:
             meta_n += 1
             for what, vc, vo in metamorphic(c, outs[i], mrng):
@@ -651,7 +1017,25 @@ def run(chk, cases=None):
     chk.extra["metamorphic_cases"] = meta_n
     chk.extra["metamorphic_failures"] = len(meta_fail)
 
+    res = [True] * len(cases)
+    for i, ok in zip(fast, fut_fast.result()):
+        res[i] = ok
+    for i, ok in zip(slow, fut_slow.result()):
+        res[i] = ok
+    bad = [i for i, ok in enumerate(res) if not ok]
+    chk.extra["model_disagreements"] = len(bad)
+    spec_bad = [i for i, ok in zip(oc_idx, fut_spec.result()) if not ok]
+    pool.shutdown()
+    chk.extra["spec_judged_outputs"] = len(oc_idx)
+    chk.extra["spec_rejections"] = len(spec_bad)
+
     found_concrete = False
+    wide_bad = [i for i in bad if _wide(cases[i])]
+    bad = [i for i in bad if not _wide(cases[i])]
+    for i in wide_bad[:2]:
+        if not found_concrete or not bad:
+            found_concrete = True
+            chk.report(judge_wide(chk, cases[i], outs[i]))
     for i in bad[:2]:
         case = shrink(cases[i], lambda c: _fails(chk, c), _cands, budget=45)
         out = run_impl(case)
